@@ -722,7 +722,7 @@ func judgeStatusError(o *outcome) string {
 		return fmt.Sprintf("status line %q: error is %T %q, want ws.StatusError(%d)", line, o.err, fmt.Sprint(o.err), expect)
 	}
 	if isSE {
-		if len(parts) < 2 || respgen.ClassifyStatus(parts[1]) != "fail:status:value" {
+		if len(parts) < 3 || respgen.ClassifyStatus(parts[1]) != "fail:status:value" {
 			return fmt.Sprintf("ws.StatusError(%d) for the status line %q", int(se), line)
 		}
 		if want := strings.TrimLeft(parts[1], "0"); strconv.Itoa(int(se)) != want && !(want == "" && se == 0) {
@@ -1570,10 +1570,11 @@ func strictStatusLine(line string) string {
 		return "no SP in the status line"
 	}
 	version, rest := line[:sp], line[sp+1:]
-	status := rest
-	if sp2 := strings.IndexByte(rest, ' '); sp2 >= 0 {
-		status = rest[:sp2]
+	sp2 := strings.IndexByte(rest, ' ')
+	if sp2 < 0 {
+		return "a status line without the second SP"
 	}
+	status := rest[:sp2]
 	if lbl := respgen.ClassifyVersion(version); strings.HasPrefix(lbl, "fail:") {
 		return fmt.Sprintf("version %q", version)
 	}
@@ -2157,4 +2158,45 @@ func TestLeadingBytes(t *testing.T) {
 	}
 	hx.EvalN(n)
 	hx.Part("bytes before the status line: prefixes x 3 responses x line end x 4 chunkings", int64(n), true)
+}
+
+// First lines with fewer than the two mandatory separators, followed by an
+// otherwise valid head: malformed status lines, whatever tokens they hold.
+func TestTwoTokenStatusLines(t *testing.T) {
+	if !hx.Mine(7) {
+		return
+	}
+	c := dcfg{URL: "ws://example.org/", Req: respgen.Config{Protocols: []string{"chat"}}, Seed: 14, OnStatus: true}
+	n := 0
+	lines := append([]string(nil), respgen.TwoTokenStatusLines...)
+	for _, v := range []string{"HTTP/1.1", "HTTP/1.2", "HTTP/1.0", "HTTP/2.0"} {
+		for _, st := range []string{"101", "100", "200", "400", "0101", ""} {
+			lines = append(lines, v+" "+st, v+"\t"+st, v+st)
+		}
+	}
+	for _, raw := range lines {
+		for _, lf := range []bool{false, true} {
+			for _, sizes := range [][]int{nil, {1}, {5}} {
+				r := respgen.Valid()
+				r.RawStatusLine = raw
+				r.Trailing = []byte{0x81, 0x00}
+				if lf {
+					r.StatusLF, r.EndLF = true, true
+					for k := range r.Lines {
+						r.Lines[k].LF = true
+					}
+				}
+				n++
+				if cl := respgen.Classify(r, c.Req); cl.Verdict != respgen.MustFail {
+					hx.Failf(t, raw, "harness: status line %q classified %v", raw, cl.Verdict)
+					return
+				}
+				if !runFixed(t, &c, r, sizes) {
+					return
+				}
+			}
+		}
+	}
+	hx.EvalN(n)
+	hx.Part("status lines with fewer than two separators x line end x 3 chunkings", int64(n), true)
 }
